@@ -23,6 +23,10 @@ ALL_FEATURES = frozenset({
     "hyb_inc", "hyb_call", "hyb_stmtexpr", "hyb_unused_stmt", "hyb_in_cond_arm", "hyb_in_logical",
     "big_literal", "suffix_literal", "sizeof", "div",
     "widen_unsigned_from_signed",   # (uint64_t)int8-like conversions
+    "logical_mixed",                # plain value and comparison mixed as && / || operands
+    "calls_mixed_tmp_width",        # callees whose internal h_tmpN have different widths in one program
+    "const_cond",                   # ?: with a compile-time constant condition (dead arm mentions live operands)
+    "const_cmp",                    # comparison of two compile-time constants used as a condition
 })
 
 SAFE_CORE = frozenset({"cond", "cast", "unary", "shift", "if", "loop", "compound_assign", "imm", "mem", "logical"})
@@ -52,6 +56,16 @@ def lit_any(features):
     return st.one_of(opts)
 
 
+_SUBS = {}
+
+
+def default_subs():
+    if not _SUBS:
+        from . import diff
+        _SUBS.update(diff.bundled_subs())
+    return _SUBS
+
+
 class Env:
     """generation context: operands by role, declared locals, feature set, name counter"""
 
@@ -61,7 +75,8 @@ class Env:
         self.vars = {}          # name -> ctype (initialised locals readable in expressions)
         self.n = 0
         self.busy = set()       # variables that may not be touched in the current full expression
-        self.subs = {}
+        self.subs = default_subs()
+        self.call_family = ["clz32", "clo32", "revbit32"]
 
     def fresh(self, prefix="v"):
         self.n += 1
@@ -96,7 +111,15 @@ def env_strategy(draw, features):
     imms = [opnd(x) for x in (["siV", "uiV"] if "imm" in f else [])]
     aliases = [opnd("HEX_REG_ALIAS_" + a) for a in (["SP", "LR", "PC"] if "alias" in f else [])]
     expl = [opnd(x) for x in (["P0", "R31"] if "explicit" in f else [])]
-    return Env(f, srcs, dsts, rws, imms, aliases, expl)
+    env = Env(f, srcs, dsts, rws, imms, aliases, expl)
+    # callee bodies share the flat local namespace: their h_tmpN have the width of the callee's own hybrids, so
+    # callees of different "temporary width" are only mixed when the corresponding finding class is enabled
+    fams = [["clz32", "clo32", "revbit32"], ["clz64", "clo64", "revbit64"], ["fbrev", "revbit16"]]
+    if "calls_mixed_tmp_width" in f:
+        env.call_family = sum(fams, [])
+    else:
+        env.call_family = draw(st.sampled_from(fams))
+    return env
 
 
 def _types(env):
@@ -136,7 +159,7 @@ def _ty(e, env):
 def is_const(e):
     """would the compiler see a pure literal (and fold)?"""
     k = e[0]
-    if k == "num":
+    if k in ("num", "sizeof", "sizeoft"):
         return True
     if k == "paren":
         return is_const(e[1])
@@ -160,6 +183,8 @@ def expr(draw, env, depth, allow_hybrid=False):
                     ("cast", "cast"), ("unary", "unary"), ("load", "mem"), ("sizeof", "sizeof"), ("div", "div")):
         if feat in f:
             kinds.append(k)
+    if "const_cond" in f:
+        kinds.append("constcond")
     if allow_hybrid:
         for k, feat in (("inc", "hyb_inc"), ("call", "hyb_call"), ("stmtexpr", "hyb_stmtexpr")):
             if feat in f:
@@ -199,6 +224,9 @@ def expr(draw, env, depth, allow_hybrid=False):
         c = draw(condition(env, depth - 1, allow_hybrid=False))
         a, b = sub(), sub()
         return ("cond", c, a, b)
+    if k == "constcond":
+        c = draw(st.sampled_from([num(1), num(0), ("bin", "==", num(1), num(1)), ("bin", "<", num(3), num(2))]))
+        return ("cond", c, sub(), sub())
     if k == "cast":
         t = draw(st.sampled_from(_types(env)))
         a = sub()
@@ -228,7 +256,7 @@ def expr(draw, env, depth, allow_hybrid=False):
         env.busy.add(n)
         return ("post", draw(st.sampled_from(["++", "--"])), ("var", n))
     if k == "call":
-        name = draw(st.sampled_from(["clz32", "clo32", "revbit32", "fbrev", "clz64", "revbit16"]))
+        name = draw(st.sampled_from(env.call_family))
         return ("call", name, [sub()])
     if k == "stmtexpr":
         n = env.fresh("g")
@@ -459,7 +487,7 @@ def _su_widen(src, dst):
 
 def normalize(stmts, features, subs=None, stats=None):
     vt = {"EA": (False, 32), "i": (False, 32), "j": (False, 32), "k": (False, 32)}
-    subs = subs or {}
+    subs = subs or default_subs()
     stats = stats if stats is not None else {}
 
     def note(k):
